@@ -131,10 +131,19 @@ class Actuation:
                 return
         # history: a door is never found open unless it started open or a documented actuation opened it
         if ev.get('stateful') and cl.idx in self.legit:
-            f = M.front(w0)
-            if a == 'ACTUATE' and M.inside(w0, *f) and w0['cells'][f[0]][f[1]][0] == 'Door':
-                d = w0['cells'][f[0]][f[1]]
-                held = w0['agent'][3]
+            # the world as the door-actuating component sees it (earlier components of the chain may
+            # have moved, turned or teleported the agent)
+            wa = None
+            if 'actuate_door' in chain:
+                if cl.proxied and len(ev['complog']) == len(chain):
+                    wa = ev['complog'][chain.index('actuate_door')][1]
+                elif not any(n in M.STOCHASTIC for n in chain[: chain.index('actuate_door')]):
+                    wa = M.mutable(w0)
+                    M.step_deterministic(wa, a, chain[: chain.index('actuate_door')])
+            f = M.front(wa) if wa is not None else (-1, -1)
+            if wa is not None and a == 'ACTUATE' and M.inside(wa, *f) and wa['cells'][f[0]][f[1]][0] == 'Door':
+                d = wa['cells'][f[0]][f[1]]
+                held = wa['agent'][3]
                 if d[1] == 'CLOSED' or (d[1] == 'LOCKED' and held[0] == 'Key' and held[1] == d[2]):
                     self.legit[cl.idx].add(f)
             for p, c in doors_boxes(w1).items():
